@@ -57,7 +57,9 @@ func hashBufferInfo(arg ssa.Value) (prefix string, length int64, ok bool) {
 
 func derefArray(a *ssa.Alloc) (int64, bool) {
 	t := a.Type().Underlying()
-	if p, ok := t.(interface{ Elem() interface{ Underlying() interface{} } }); ok {
+	if p, ok := t.(interface {
+		Elem() interface{ Underlying() interface{} }
+	}); ok {
 		_ = p
 	}
 	s := a.Type().String() // *[65]byte
@@ -385,8 +387,14 @@ func c08(c *Ctx) {
 						rootCmp = true
 					}
 					// the two position counters (derived from proof.Leaf and proof.Width) must meet
-					if dependsOn(bo.X, func(v ssa.Value) bool { f, _ := fieldOf(v); return f == "InclusionProof.Leaf" || f == "InclusionProof.Width" }) &&
-						dependsOn(bo.Y, func(v ssa.Value) bool { f, _ := fieldOf(v); return f == "InclusionProof.Leaf" || f == "InclusionProof.Width" }) {
+					if dependsOn(bo.X, func(v ssa.Value) bool {
+						f, _ := fieldOf(v)
+						return f == "InclusionProof.Leaf" || f == "InclusionProof.Width"
+					}) &&
+						dependsOn(bo.Y, func(v ssa.Value) bool {
+							f, _ := fieldOf(v)
+							return f == "InclusionProof.Leaf" || f == "InclusionProof.Width"
+						}) {
 						posCmp = true
 					}
 				}
